@@ -277,15 +277,21 @@ func (w *World) CheckConservation(n *Node) {
 	if n.Abandoned {
 		return
 	}
-	if len(w.Trusted) > 0 {
-		w.Res.Count("c02_skipped_trusted_sealing", 1)
-		return
-	}
 	s, err := TakeSnap(n.Book)
 	if err != nil {
 		return
 	}
 	conf := s.Confirmed()
+	if len(w.Trusted) > 0 {
+		// the property speaks of vertices none of which was sealed under the trusted-node exemption: a ledger in which a
+		// trusted sealer sealed a vertex that moves funds is not judged (a trusted sealer's vertex without spice moves nothing)
+		for h := range conf {
+			if v, ok := s.Vertex(h); ok && w.Trusted[v.SignerPublicAddress] && (v.Transaction.Spice.Currency != 0 || v.Transaction.Spice.SupplementaryCurrency != 0) {
+				w.Res.Count("c02_skipped_trusted_sealing", 1)
+				return
+			}
+		}
+	}
 	serial := isChain(s)
 	type flow struct{ in, out *big.Int }
 	flows := map[string]*flow{}
